@@ -549,10 +549,14 @@ class AnsiString:
             index, and second element is an in_list index.
         '''
         matches = []
+        used = []
         for i, s in enumerate(find_list):
             for i2, s2 in enumerate(in_list):
-                if s is s2:
+                # Each element is matched at most once (the same reference may be in in_list several times)
+                if s is s2 and i2 not in used:
                     matches.append((i, i2))
+                    used.append(i2)
+                    break
         return matches
 
     def _slice_val_to_idx(self, val:int, default:int) -> int:
